@@ -203,6 +203,11 @@ def _misuse(d):
         what.append("%d mutex(es) were still held by the application thread when the API call returned" % hr)
     if bu:
         what.append("%d UNLOCK(s) of a mutex the calling thread did not hold / pthread_join calls of the library that failed" % bu)
+    if "join-failed" in txt and "unlock-not-held" not in txt and not hr:
+        m = re.search(r"join-failed:T(\d+):in_\(*([A-Za-z_0-9]+)", txt)
+        return [("join_failed", "a pthread_join called by the library failed (error %s) in %s: the thread it wanted to wait for does not exist "
+                 "(not created yet, detached, or joined before) [%s]" % (m.group(1) if m else "?", m.group(2) if m else site, txt),
+                 {"defect": "join_failed", "site": m.group(2) if m else site}, "")]
     return [("mutex_misuse", "mutex misuse seen by the wrap layer: " + "; ".join(what) + " [kind:class+client:where = %s]" % txt,
              {"defect": "mutex_misuse", "site": site}, "")]
 
